@@ -7,7 +7,7 @@ EXTRA="$@"
 mkdir -p "$OUT"
 SRC="reproc options redirect redirect.posix pipe.posix handle.posix process.posix strv drain run clock.posix error.posix init.posix utf.posix"
 FLAGS="-O2 -g -DNDEBUG -std=c99 -DREPROC_MULTITHREADED -fno-builtin-malloc -fno-builtin-free -fno-builtin-calloc -fno-builtin-realloc -fno-builtin-strdup -Wno-error"
-REDIRECT="pipe fcntl close dup2 read write poll open fileno fork execvp _exit waitpid kill chdir getcwd getrlimit sigfillset sigemptyset sigaction pthread_sigmask sigprocmask clock_gettime malloc calloc realloc free strdup environ stdin stdout stderr"
+REDIRECT="pipe fcntl close dup2 dup wait waitid read write poll open fileno fork execvp _exit waitpid kill chdir getcwd getrlimit sigfillset sigemptyset sigaction pthread_sigmask sigprocmask clock_gettime malloc calloc realloc free strdup environ stdin stdout stderr"
 ALLOW="strlen memcpy strchr strcpy memset abs __xpg_strerror_r strerror_r __errno_location memmove strcmp __stack_chk_fail _GLOBAL_OFFSET_TABLE_"
 ARGS=""
 for s in $REDIRECT; do ARGS="$ARGS --redefine-sym $s=sim_$s"; done
